@@ -443,7 +443,7 @@ theorem roundtrip (fv : FieldVal) (tag : Nat) (ht : ValidTag tag) (hv : fv.Valid
       d2.off = pre.length + (fv.encOp tag).wire.length ∧ d2.p = d.p ∧ d2.fast = d.fast := by
   rw [wire_split fv tag hv, List.append_assoc] at h
   have h1 := Dec.tag_at h ht.1 ht.2 (wt_lt fv)
-  have hAt := h.advance
+  have hAt := h.afterTag
   obtain ⟨a, h2⟩ := value_step fv tag hv _ _ _ hAt
   refine ⟨_, _, a, h1, h2, ?_, rfl, rfl⟩
   rw [wire_split fv tag hv]
